@@ -6,6 +6,7 @@ package main
 import (
 	"errors"
 	"io"
+	"log/slog"
 	"net"
 	"sync"
 	"syscall"
@@ -27,23 +28,24 @@ type mrec struct {
 
 // connObs: what the observers of one connection saw
 type connObs struct {
-	tlog, clog []int
-	mlog       []mrec
-	dials      int
-	dialAddrs  []string
-	wireTR     int64 // plaintext bytes the target read
-	wireCR     int64 // ciphertext bytes the client read
-	wireTS     int64 // plaintext bytes the target wrote
-	wireCS     int64 // ciphertext bytes the client wrote
-	opened     bool
-	handled    bool // Handle returned
-	acceptAt   int64
-	closeAt    int64 // client saw EOF/RST (ms since T0), -1
-	clientDone bool
-	targetDone bool
-	tAccepted  bool
-	badPieces  int
-	writeErrs  int
+	tlog, clog     []int
+	mlog           []mrec
+	dials          int
+	dialAddrs      []string
+	wireTR         int64 // plaintext bytes the target read
+	wireCR         int64 // ciphertext bytes the client read
+	wireTS         int64 // plaintext bytes the target wrote
+	wireCS         int64 // ciphertext bytes the client wrote
+	wirePT, wirePC int64 // bytes the proxy's writes really handed to the target / client socket
+	opened         bool
+	handled        bool // Handle returned
+	acceptAt       int64
+	closeAt        int64 // client saw EOF/RST (ms since T0), -1
+	clientDone     bool
+	targetDone     bool
+	tAccepted      bool
+	badPieces      int
+	writeErrs      int
 }
 
 type board struct {
@@ -144,6 +146,36 @@ func (m *recServiceMetrics) AddCipherSearch(proto string, accessKeyFound bool, t
 }
 func (m *recServiceMetrics) AddUDPNatEntry(clientAddr net.Addr, accessKey string) service.UDPConnMetrics {
 	return nil
+}
+
+// countedConn: the proxy's own socket (towards the target or towards the client) with the byte counts that its write system
+// calls really returned - the ground truth for "bytes actually sent".  No ReaderFrom/WriterTo short cuts: every byte goes
+// through Write.
+type countedConn struct {
+	c     *net.TCPConn
+	wrote func(n int)
+}
+
+func (w *countedConn) Read(b []byte) (int, error) { return w.c.Read(b) }
+func (w *countedConn) Write(b []byte) (int, error) {
+	n, err := w.c.Write(b)
+	if n > 0 {
+		w.wrote(n)
+	}
+	return n, err
+}
+func (w *countedConn) Close() error                       { return w.c.Close() }
+func (w *countedConn) CloseRead() error                   { return w.c.CloseRead() }
+func (w *countedConn) CloseWrite() error                  { return w.c.CloseWrite() }
+func (w *countedConn) LocalAddr() net.Addr                { return w.c.LocalAddr() }
+func (w *countedConn) RemoteAddr() net.Addr               { return w.c.RemoteAddr() }
+func (w *countedConn) SetDeadline(t time.Time) error      { return w.c.SetDeadline(t) }
+func (w *countedConn) SetReadDeadline(t time.Time) error  { return w.c.SetReadDeadline(t) }
+func (w *countedConn) SetWriteDeadline(t time.Time) error { return w.c.SetWriteDeadline(t) }
+
+// debugLogger: what -verbose gives the server (every debug statement of the handlers is evaluated)
+func debugLogger() *slog.Logger {
+	return slog.New(slog.NewTextHandler(io.Discard, &slog.HandlerOptions{Level: slog.LevelDebug}))
 }
 
 // ---- stream chopper: cuts an incoming byte stream into the pieces the peer is known to have written -------------
